@@ -76,6 +76,7 @@ H = {'unit': (1.0, 1.0, 1.0), 'dyadic': (0.5, 0.25, 2.0), 'nondyadic': (0.3, 0.7
      'near1m': (1.0 - 2.0 ** -18, 1.0 + 2.0 ** -40, 1.0 - 2.0 ** -40),
      # integral steps, handed to finite_diff as Python ints (variant 'dxint')
      'int': (2.0, 1.0, 4.0)}
+BASE_HS = ('unit', 'dyadic', 'nondyadic')
 HS = ('unit', 'dyadic', 'nondyadic', 'int', 'tiny', 'huge', 'near1', 'near1m')
 # cell sides by which the division is not exact: tolerance 4 eps * magnitude
 INEXACT_H = ('nondyadic', 'near1', 'near1m')
@@ -181,7 +182,7 @@ def _admissible(kind, mode, shape):
 def configs(tier):
     thorough = tier == 'thorough'
     if thorough:
-        dh = [(d, h) for d in DTYPES for h in HS]
+        dh = [(d, h) for d in DTYPES for h in BASE_HS]
     else:
         dh = [('float64', 'unit'), ('float64', 'nondyadic'), ('float32', 'dyadic'),
               ('complex128', 'dyadic')]
